@@ -261,8 +261,8 @@ def workdir(prop):
     return d
 
 
-def gen_cases(profile, seed, n, out, variants=None, stats=None):
-    cmd = [os.path.join(BIN, "pvgen"), "-profile", profile, "-seed", str(seed), "-n", str(n)]
+def gen_cases(profile, seed, n, out, variants=None, stats=None, id0=1):
+    cmd = [os.path.join(BIN, "pvgen"), "-profile", profile, "-seed", str(seed), "-n", str(n), "-id0", str(id0)]
     if variants:
         cmd += ["-variants", ",".join(variants)]
     if stats:
